@@ -200,3 +200,39 @@ func H_C13_hard_max_multibyte() {
 	vAssert("non-whitespace-conserved", string(joined) == string(want))
 	vReach("end")
 }
+
+// H_C13_split_with_boundaries: SplitToSize given paragraph boundaries (the positions where paragraphs start) keeps pieces
+// valid UTF-8 and conserves the text: the boundaries must stay attached to their positions after every split.
+//
+//symgo:harness prop=C13 kernel=K1b-split-with-boundaries loop=4000 steps=60000000
+//symgo:redirect github.com/tsawler/tabula/rag.countWords vHavocCount
+//symgo:redirect github.com/tsawler/tabula/rag.countSentences vHavocCount
+//symgo:redirect github.com/tsawler/tabula/rag.countParagraphs vHavocCount
+//symgo:desc text = a first paragraph of 6..8 sentences of 14 bytes (count enumerated), then 2 paragraphs that start with a two-byte character (U+00DC, U+00C4), separated by blank lines; boundaries = one BoundaryParagraph at the byte offset where each later paragraph starts; hard Max of 60, 70 or 80 characters (enumerated); word/sentence/paragraph counters havoc'd: every piece is valid UTF-8 and the pieces' non-whitespace bytes are the text's, in order
+func H_C13_split_with_boundaries() {
+	ns := vAnyIntIn(6, 8)
+	p1 := ""
+	for i := 0; i < ns; i++ {
+		if i > 0 {
+			p1 += " "
+		}
+		p1 += "The fox " + string(rune('a'+i)) + " ran."
+	}
+	text := p1 + "\n\n" + "Über den Wolken ist die Freiheit gross." + "\n\n" + "Ärger gibt es immer wieder einmal."
+	var bs []Boundary
+	for i := 0; i+2 < len(text); i++ {
+		if text[i] == '\n' && text[i+1] == '\n' {
+			bs = append(bs, Boundary{Type: BoundaryParagraph, Position: i + 2, Score: 80})
+		}
+	}
+	cfg := DefaultSizeConfig()
+	cfg.Max = SizeLimit{Value: []int{60, 70, 80}[vAnyIntIn(0, 2)], Unit: SizeUnitCharacters, Type: LimitTypeHard}
+	pieces := NewSizeCalculatorWithConfig(cfg).SplitToSize(text, bs)
+	var joined []byte
+	for _, p := range pieces {
+		vAssert("piece-is-valid-utf8", utf8.ValidString(p))
+		joined = append(joined, vNonWS(p)...)
+	}
+	vAssert("non-whitespace-conserved", string(joined) == string(vNonWS(text)))
+	vReach("end")
+}
